@@ -96,11 +96,11 @@ uint32_t COTmrGetTicks(CO_TMR *tmr, uint16_t time, uint32_t unit)
     if (freq == 0u) {
         ticks = 0u;
     } else {
-        if (freq <= unit) {
-            ticks = (uint32_t)time / (unit / freq);
-        } else {
-            ticks = (uint32_t)time * (freq / unit);
-        }
+        /* ticks = time * freq / unit, split in whole and fractional
+         * part of the frequency ratio to stay within 32 bit
+         */
+        ticks  = (uint32_t)time * (freq / unit);
+        ticks += ((uint32_t)time * (freq % unit)) / unit;
     }
     return (ticks);
 }
